@@ -21,7 +21,8 @@ PROPERTIES = ["StructuralKeepsPhysics", "RejectedIsNoop", "MeasureProps", "PovmP
 
 def make_cfg(name: str, universe: str, depth: int, thin: bool, families: str = "Fam_All",
              ops: str = "All", init: Optional[str] = None, exhaustive: bool = False,
-             overrides: Optional[Dict[str, str]] = None, next_: str = "NextSim") -> str:
+             overrides: Optional[Dict[str, str]] = None, next_: str = "NextSim", scripts: str = "NoScript",
+             focus: str = "NoFocus", cover: bool = False) -> str:
     u = UNIVERSES[universe]
     sets = {
         "PolGates": f"{ops}_PolGates", "FockGates": f"{ops}_FockGates", "CusGates": f"{ops}_CusGates",
@@ -37,8 +38,11 @@ def make_cfg(name: str, universe: str, depth: int, thin: bool, families: str = "
     for k, v in sets.items():
         lines.append(f"  {k} <- {v}")
     lines += [f"  Families <- {families}", f"  MaxDepth = {depth}", f"  Thin = {'TRUE' if thin else 'FALSE'}",
-              "INIT Init", f"NEXT {'Next' if exhaustive else next_}", "CHECK_DEADLOCK FALSE"]
-    if exhaustive:
+              f"  Scripts <- {scripts}", f"  Focus <- {focus}",
+              "INIT Init", f"NEXT {'Next' if (exhaustive or cover) else next_}", "CHECK_DEADLOCK FALSE"]
+    if cover:
+        lines.append("ACTION_CONSTRAINT ExportAC")
+    elif exhaustive:
         lines += [f"INVARIANT {i}" for i in INVARIANTS]
         lines += [f"PROPERTY {p}" for p in PROPERTIES]
         lines.append("VIEW View")
